@@ -116,19 +116,20 @@ def Rep.ok : Rep → List Cell → Prop
   | .scalar b, xs => ∀ c ∈ xs, c.m = b
   | .array, _ => True
 
-/-- tvl.py:143-154 on one lane -/
+/-- tvl.py:143-155 on one lane.  Scalar-mask branch: `bool(mask) and size > 0` — when the object has no
+    elements every lane is empty, otherwise none is, so per lane this is `b && !xs.isEmpty`. -/
 def tvlAnyCode (r : Rep) (xs : List Cell) : Cell :=
   match r with
-  | .scalar b => ⟨xs.any (·.v), b⟩
+  | .scalar b => ⟨xs.any (·.v), b && !xs.isEmpty⟩
   | .array =>
     let newV := xs.any fun c => c.v && !c.m
     let found := xs.any (·.m)
     ⟨newV, !newV && found⟩
 
-/-- tvl.py:193-205 on one lane -/
+/-- tvl.py:194-207 on one lane (scalar-mask branch as in `tvlAnyCode`) -/
 def tvlAllCode (r : Rep) (xs : List Cell) : Cell :=
   match r with
-  | .scalar b => ⟨xs.all (·.v), b⟩
+  | .scalar b => ⟨xs.all (·.v), b && !xs.isEmpty⟩
   | .array =>
     let newV := xs.all fun c => c.v || c.m
     let found := xs.any (·.m)
